@@ -1,4 +1,4 @@
-import WfModel.Engine
+import WfModel.Runner
 import Driver.Util
 /-! Line protocol for the engine reducer model (token streams, see harness/enc.py). -/
 open Engine
@@ -222,9 +222,42 @@ def sResult (cfg : Cfg) (r : State × List Cmd) : String :=
   if r.2.contains .crash then "crash"
   else " ".intercalate (r.2.map sCmd) ++ " ;; " ++ sState cfg r.1
 
+def sTick : Tick → String
+  | .stepResult step w e rs => s!"TS {step} {w} {sEv e} {sList sRes rs}"
+  | .addEvent a tgt => s!"TA {sAttempt a} {sOptNat tgt}"
+  | .cancelRun => "TC"
+  | .idleRelease => "TR"
+  | .publish e => s!"TP {sEv e}"
+  | .timeout t => s!"TT {t}"
+  | .waiterTimeout st w => s!"TW {st} {w}"
+  | .idleCheck => "TI"
+where
+  sRes : Res → String
+    | .result e => s!"RR {sOptEv e}"
+    | .failed x t => s!"RF {x} {t}"
+    | .addCollected b e => s!"RA {b} {sEv e}"
+    | .deleteCollected b => s!"RD {b}"
+    | .addWaiter w we req tmo ty => s!"RW {w} {sOptEv we} {sOptNat req} {sOptNat tmo} {ty}"
+    | .deleteWaiter w => s!"RX {w}"
+
+def sOutcome : Option Outcome → String
+  | none => "running"
+  | some (.completed p) => s!"completed {sPub p}"
+  | some (.failed s x) => s!"failed {s} {x}"
+  | some (.halted .cancelledByUser) => "halted cancelled"
+  | some (.halted .timeout) => "halted timeout"
+  | some .crashed => "crashed"
+
+def sRunner (r : Runner) : String :=
+  let ws := sortBy (fun (a b : Nat × Nat) => a.1 < b.1 || (a.1 == b.1 && a.2 < b.2))
+    (r.running.map (fun w => (w.step, w.wid)))
+  s!"B {sList sTick r.buf} H {sList (fun t => s!"{t.at_} {t.seq} {sTick t.tick}") (sortTimers r.heap)} " ++
+  s!"R {sList (fun p => s!"{p.1} {p.2}") ws} S {r.stream.length} P {sBool r.idlePending} O {sOutcome r.outcome}"
+
 structure DState where
   cfg : Cfg := { steps := [] }
   st : State := initState
+  run : Runner := { st := initState }
 
 def tokens (s : String) : List String := (s.splitOn " ").filter (· ≠ "")
 
@@ -252,6 +285,74 @@ def step (d : DState) (line : String) : DState × String :=
       ({ d with st := r.1 }, sResult d.cfg r)
     | _ => (d, "bad-op")
   | ["show"] => (d, sState d.cfg d.st)
+  -- runner LTS
+  | "rinit" :: ts =>
+    match (do let now ← int; let e ← opt ev; let t ← optNat; pure (now, e, t)) ts with
+    | some ((now, e, t), []) =>
+      let r := Runner.init d.cfg d.st now e t
+      ({ d with run := r }, "ok")
+    | _ => (d, "bad-op")
+  | "ext" :: ts =>
+    match tick ts with
+    | some (t, []) => let r := d.run.step d.cfg (fun _ _ _ _ => none) (.external t); ({ d with run := r }, "ok")
+    | _ => (d, "bad-op")
+  | ["pull"] => let r := d.run.step d.cfg (fun _ _ _ _ => none) .pull; ({ d with run := r }, sRunner r)
+  | ["timer"] => let r := d.run.step d.cfg (fun _ _ _ _ => none) .timer; ({ d with run := r }, sRunner r)
+  | "setnow" :: ts =>
+    match int ts with
+    | some (t, []) =>
+      if t < d.run.now then (d, "bad-op")
+      else ({ d with run := { d.run with now := t } }, "ok")
+    | _ => (d, "bad-op")
+  | "wdone" :: ts =>
+    match (do let s ← nat; let w ← nat; let rs ← counted res; pure (s, w, rs)) ts with
+    | some ((s, w, rs), []) =>
+      let r := d.run.step d.cfg (fun _ _ _ _ => none) (.workerDone s w rs)
+      ({ d with run := r }, sRunner r)
+    | _ => (d, "bad-op")
+  | "drain" :: ts =>
+    match policy ts with
+    | some (p, []) =>
+      let r := d.run.step d.cfg p .drain
+      ({ d with run := r }, sRunner r ++ " ;; " ++ sState d.cfg r.st)
+    | _ => (d, "bad-op")
+  | "swrite" :: ts =>
+    match ev ts with
+    | some (e, []) =>
+      let r := d.run.step d.cfg (fun _ _ _ _ => none) (.stepWrite (.event e)); ({ d with run := r }, "ok")
+    | _ => (d, "bad-op")
+  | "rstep" :: ts =>
+    -- rstep <now> <policy> <hint>: set the clock; if the buffer is empty apply the
+    -- hinted fill action (HW step wid results | HP | HT | H0); then drain one tick.
+    -- Output: runner summary after the pop and before the reduce, then the reduce result.
+    match (do
+      let now ← int; let p ← policy
+      let h ← tok
+      let hint : Option Act ←
+        match h with
+        | "HW" => do let s ← nat; let w ← nat; let rs ← counted res; pure (some (Act.workerDone s w rs))
+        | "HP" => pure (some Act.pull)
+        | "HT" => pure (some Act.timer)
+        | "H0" => pure none
+        | _ => fun _ => none
+      pure (now, p, hint)) ts with
+    | some ((now, p, hint), []) =>
+      if now < d.run.now then (d, "bad-op") else
+      let r0 := { d.run with now := now }
+      let r1 := match hint with
+        | some a => if r0.buf.isEmpty then r0.step d.cfg p a else r0
+        | none => r0
+      match r1.buf with
+      | [] => ({ d with run := r1 }, "empty-buffer " ++ sRunner r1)
+      | t :: rest =>
+        let pre := { r1 with buf := rest, idlePending := if t = Tick.idleCheck then false else r1.idlePending }
+        let r2 := r1.step d.cfg p .drain
+        let red := reduce d.cfg p t r1.st r1.now
+        ({ d with run := r2 }, sTick t ++ " @@ " ++ sRunner pre ++ " => " ++ sResult d.cfg red)
+    | _ => (d, "bad-op")
+  | ["rend"] => (d, sOutcome d.run.outcome ++ " ;; " ++ sList sPub d.run.stream)
+  | ["rstream"] => (d, sList sPub d.run.stream)
+  | ["rlog"] => (d, sList (fun p => s!"{p.2} {sTick p.1}") d.run.log)
   | _ => (d, "bad-op")
 
 end Drv.Engine
